@@ -40,6 +40,19 @@ Theorem C15_simulator_radius_selection_refines_library :
 Proof. exact @sim_radius_refines_library. Qed.
 Print Assumptions C15_simulator_radius_selection_refines_library.
 
+Theorem C15_row_without_neighbours_reports_the_library_expectations :
+  forall (R A G : Type) (N : Num R) (aeqb : A -> A -> bool) (RG : RngOps R G) 
+    (s : (@nbr R A G)) (l : (@lp R A G)) (quick : bool) (raw : list R) (seed : Z) (row : list R) 
+    (orc : list nat),
+  neighborhood N s row orc = Some [] ->
+  nnprob_len_ok s = true ->
+  (exists p : option A,
+     simnbr_row N aeqb RG s l quick raw seed row (own_cache N s row) orc =
+     Some (p, (n_exp s, []), 0%nat, l)) /\
+  (exists r : (@lp R A G), nbr_row N aeqb RG s l seed row orc false = Some (inr (n_exp s), r)).
+Proof. exact @sim_empty_neighbourhood_reports_the_library_expectations. Qed.
+Print Assumptions C15_row_without_neighbours_reports_the_library_expectations.
+
 Theorem C15_simulator_predict_refines_library_predict :
   forall (R A G : Type) (N : Num R) (aeqb : A -> A -> bool) (RG : RngOps R G),
   (forall x y : A, aeqb x y = true <-> x = y) ->
